@@ -617,6 +617,9 @@ func (m *Module) injectorFileName(p *Pkg, file int) string {
 	if file == 0 {
 		return "wire.go"
 	}
+	if file == 2 {
+		return "zz_inject.go" // sorts after wire_gen.go (and after every other file of the package)
+	}
 	return fmt.Sprintf("inject_%d.go", file)
 }
 
@@ -716,12 +719,22 @@ func (m *Module) renderInjectors(p *Pkg) []world.File {
 						extraSum += " + " + o.Name
 					}
 				}
-				shadow := ""
+				localSet := ""
+				if i == 0 {
+					for _, st := range m.Sets {
+						if st.Pkg == p.Idx && st.AliasOf == 0 {
+							// a function-local variable called like a package-level provider-set variable of another file
+							localSet = fmt.Sprintf("\tvar %s = err + 1\n\terr += %s\n", st.Name, st.Name)
+							break
+						}
+					}
+				}
+				shadow := localSet
 				if extraParams != "" {
 					// the same colliding name declared again in nested scopes: several distinct objects with one
 					// name inside ONE copied declaration, each of which needs its own new name
 					first := strings.Fields(strings.TrimPrefix(extraParams, ", "))[0]
-					shadow = fmt.Sprintf("\tif err > %d {\n\t\t%s := %s + err\n\t\tfor i := 0; i < 2; i++ {\n\t\t\t%s := %s + i\n\t\t\terr += %s\n\t\t}\n\t\treturn %s\n\t}\n", i, first, first, first, first, first, first)
+					shadow += fmt.Sprintf("\tif err > %d {\n\t\t%s := %s + err\n\t\tfor i := 0; i < 2; i++ {\n\t\t\t%s := %s + i\n\t\t\terr += %s\n\t\t}\n\t\treturn %s\n\t}\n", i, first, first, first, first, first, first)
 				}
 				fmt.Fprintf(&b, "// copied%d is copied into the generated file.\nfunc copied%d_%d(err int%s) int {\n%s\tcleanup := err + %d%s\n\treturn cleanup\n}\n\n", i, p.Idx, i, extraParams, shadow, i, extraSum)
 			}
